@@ -164,9 +164,24 @@ def structural_handlers(repo: Repo, rep, P: str, secs):
         else:
             rep.violation(f"{P}.R1", f"{secs['project'].reader_cls.file.rel}:SunVoxReader.process_{cid}", src[:160],
                           f"{cid} must rewind and hand the stream to {reader}", r.where if r else "")
+    from ..packed import single_defs, resolve_names
     for cid, call in (("PDTA", "attach_pattern(pattern)"), ("PPAR", "attach_pattern(pattern)"), ("PEND", "attach_pattern(None)")):
         r = sv.get(cid)
-        if r is None or not any(call in s for s in r.stmts):
+        attached_ok = False
+        if r is not None:
+            hdefs = single_defs(r.node)
+            for c in shape.calls_to(r.node, "attach_pattern"):
+                if len(c.args) != 1:
+                    continue
+                a = resolve_names(c.args[0], hdefs)
+                if cid == "PEND":
+                    attached_ok = attached_ok or (isinstance(a, ast.Constant) and a.value is None)
+                else:
+                    # the object of the section reader that was handed the stream
+                    want_reader = "PatternReader" if cid == "PDTA" else "PatternCloneReader"
+                    attached_ok = attached_ok or (isinstance(a, ast.Attribute) and a.attr == "object" and isinstance(a.value, ast.Call)
+                                                  and norm(a.value.func).split(".")[-1] == want_reader)
+        if not attached_ok:
             rep.violation(f"{P}.R1", f"{secs['project'].reader_cls.file.rel}:SunVoxReader.process_{cid}",
                           "; ".join(r.stmts) if r else "missing", f"{cid} must end in {call}", r.where if r else "")
         else:
